@@ -26,8 +26,19 @@ class Get(Contract):
         for fields, lab in ((None, "all"), (["b"], "list1"), (["c", "a"], "list2"), ("b", "name")):
             for hi_none in (False, True):
                 yield f"fields={lab},hi={'None' if hi_none else 'int'}", mk(fields, hi_none)
+        # enum-coded column (same function, own stubs): see GetEnum below
+        yield from GetEnum().configs(v)
+
+    def _enum(self):
+        if "codes" in self._v.path.ghost:
+            e = GetEnum()
+            e._v = self._v
+            return e
+        return None
 
     def requires(self, grp, lo, hi, fields, convert_enum, as_dict):
+        if self._enum() is not None:
+            return self._enum().requires(grp, lo, hi, fields, convert_enum, as_dict)
         n = self._v.path.ghost["n"]
         r = [0 <= lo, lo <= n]
         if hi is not None:
@@ -35,6 +46,8 @@ class Get(Contract):
         return r
 
     def ensures(self, result, grp, lo, hi, fields, convert_enum, as_dict):
+        if self._enum() is not None:
+            return self._enum().ensures(result, grp, lo, hi, fields, convert_enum, as_dict)
         from pyvc.lib_pandas import DataFrameV, SeriesV
         n = self._v.path.ghost["n"]
         h = n if hi is None else hi
@@ -52,4 +65,89 @@ class Get(Contract):
             a = cols[c]
             out[f"rows-{c}"] = And(L(a) == h - lo, forall(0, h - lo, lambda k, a=a, c=c: a[k] == grp[c][lo + k]))
         out["row-labels"] = And(L(index) == h - lo, forall(0, h - lo, lambda k: index[k] == lo + k)) if index is not None else False
+        return out
+
+
+class _EnumDtype:
+    def __init__(self, ds):
+        self.ds = ds
+
+    def pyvc_getattr(self, I, attr, node):
+        if attr == "type":
+            return "numpy.int32 (an integer scalar type)"
+        raise Exception("dtype." + attr)
+
+
+class _EnumDset:
+    """an enum-coded dataset: integer codes + the name -> code dictionary of its HDF5 enum dtype"""
+
+    def __init__(self, codes, enum):
+        self.codes, self.enum = codes, enum
+        self.dtype = _EnumDtype(self)
+
+    def pyvc_getattr(self, I, attr, node):
+        if attr == "dtype":
+            return self.dtype
+        raise Exception("Dataset." + attr)
+
+    def pyvc_getitem(self, I, key, node):
+        from pyvc.lib_numpy import arr_getitem
+        return arr_getitem(I, self.codes, key, node)
+
+
+class GetEnum(Contract):
+    """C14/C18: an enum-coded column (bins/chrom) is decoded with the names ordered BY THEIR CODE (not alphabetically):
+    the categorical's codes are the stored codes of rows lo..hi-1 and its i-th category is the name stored for code i;
+    with convert_enum=False the raw codes come back"""
+    target = f"{TOP}:get"
+    props = ["C14", "C18"]
+    name_suffix = "enum"
+
+    def configs(self, v):
+        from pyvc.values import LibFunc, LibNS
+
+        def mk(convert):
+            def f(v):
+                log = []
+                n = v.Int("nrows")
+                v.assume(n >= 0)
+                codes = v.Arr("ds.chrom", n=n)
+                enum = {"chrB": 0, "chrA": 1, "chrC": 2}        # stored order differs from the alphabetical one
+                ds = _EnumDset(codes, enum)
+
+                def check_dtype(I, enum=None, **k):
+                    return dict(enum.ds.enum) if isinstance(enum, _EnumDtype) else None
+
+                def from_codes(I, c, categories, ordered=False, **k):
+                    log.append(("from_codes", c, list(categories), ordered))
+                    return ("categorical", c, list(categories))
+                pdns = LibNS("pd", {"Categorical": LibNS("pd.Categorical", {"from_codes": LibFunc("Categorical.from_codes", from_codes)})})
+                h5 = LibNS("h5py", {"check_dtype": LibFunc("h5py.check_dtype", check_dtype)})
+                return dict(grp={"chrom": ds}, lo=v.Int("lo"), hi=v.Int("hi"), fields=["chrom"], convert_enum=convert, as_dict=True,
+                            __free__={"pd": pdns, "h5py": h5}, __ghost__={"n": n, "log": log, "codes": codes, "convert": convert})
+            return f
+        yield "enum,convert", mk(True)
+        yield "enum,raw-codes", mk(False)
+
+    def requires(self, grp, lo, hi, fields, convert_enum, as_dict):
+        n = self._v.path.ghost["n"]
+        return [0 <= lo, lo <= hi, hi <= n]
+
+    def ensures(self, result, grp, lo, hi, fields, convert_enum, as_dict):
+        g = self._v.path.ghost
+        codes = g["codes"]
+        out = {"a-dictionary-with-the-column": isinstance(result, dict) and list(result) == ["chrom"]}
+        if not out["a-dictionary-with-the-column"]:
+            return out
+        r = result["chrom"]
+        if g["convert"]:
+            ok = isinstance(r, tuple) and r[0] == "categorical" and len(g["log"]) == 1
+            out["decoded-as-a-categorical"] = ok
+            if ok:
+                out["categories-are-the-names-in-code-order"] = r[2] == ["chrB", "chrA", "chrC"] and g["log"][0][3] is True
+                c = r[1]
+                out["codes-are-the-stored-codes-of-the-rows"] = And(L(c) == hi - lo, forall(0, hi - lo, lambda k: c[k] == codes[lo + k]))
+        else:
+            out["raw-codes-of-the-rows"] = And(L(r) == hi - lo, forall(0, hi - lo, lambda k: r[k] == codes[lo + k])) if isinstance(r, Arr) else False
+            out["nothing-decoded"] = not g["log"]
         return out
